@@ -245,7 +245,7 @@ func muxScenario(tr *Tracer, rng *rand.Rand, nchan, msgs, replies, procs int, un
 	for i := 0; i < unknown; i++ {
 		c := 500 + i
 		tr.Emit(Ev{"ev": "PeerSendUnknown", "chan": c})
-		mc.Feed(mkPacket(4, 1, c, 0, encRetStat(1).Bytes))
+		mc.Feed(strayPacket(i, c))
 	}
 	// a channel that was closed does not exist any more either
 	for i, c := range closedIDs {
@@ -253,7 +253,7 @@ func muxScenario(tr *Tracer, rng *rand.Rand, nchan, msgs, replies, procs int, un
 			break
 		}
 		tr.Emit(Ev{"ev": "PeerSendUnknown", "chan": c})
-		mc.Feed(mkPacket(4, 1, c, 0, encRetStat(1).Bytes))
+		mc.Feed(strayPacket(i+1, c))
 		unknown++
 	}
 	errs := 0
@@ -270,6 +270,31 @@ func muxScenario(tr *Tracer, rng *rand.Rand, nchan, msgs, replies, procs int, un
 	tr.Emit(Ev{"ev": "ConnErrs", "n": errs, "unknown": unknown})
 	close(peer.stop)
 	mc.Close()
+}
+
+// strayPacket: what a peer may address to a channel that does not exist - a response packet, or a
+// header-only packet of the channel protocol (a late acknowledgement, a setup, a teardown)
+func strayPacket(i, c int) []byte {
+	switch i % 6 {
+	case 1:
+		return mkPacket(11, 1, c, 0, nil) // PROTACK
+	case 2:
+		return mkPacket(9, 1, c, 0, nil) // CLOSE
+	case 3:
+		return mkPacket(8, 1, c, 0, nil) // SETUP
+	case 4:
+		return mkPacket(15, 1, c, 0, nil) // NORMAL
+	case 5:
+		return mkPacket(4, 1, c, 0, nil) // header-only RESPONSE
+	}
+	return mkPacket(4, 1, c, 0, encRetStat(1).Bytes)
+}
+
+func muxStrays(i int, rng *rand.Rand) int {
+	if i == 0 {
+		return 6
+	}
+	return rng.Intn(7)
 }
 
 func muxRetVal(p *tds.ReturnStatusPackage) int32 { return p.ReturnValue }
@@ -303,7 +328,7 @@ func muxMain(args []string) error {
 				nchan = 4
 			}
 		}
-		muxScenario(tr, rng, nchan, 2+rng.Intn(4), replies, procs, rng.Intn(3))
+		muxScenario(tr, rng, nchan, 2+rng.Intn(4), replies, procs, muxStrays(i, rng))
 	}
 	return tr.Close()
 }
